@@ -774,3 +774,38 @@ func derefExpr(fn *FuncInfo, x ast.Expr) ast.Expr {
 	}
 	return x
 }
+
+// derefLoose is derefExpr that ignores value-less declarations (`var x T`) of the variable: it
+// answers "which expression is this value computed by", not "what does the variable hold at
+// every point" — for provenance checks of result variables filled in exactly once.
+func derefLoose(fn *FuncInfo, x ast.Expr) ast.Expr {
+	info := fn.Info()
+	for depth := 0; depth < 4; depth++ {
+		id, ok := ast.Unparen(x).(*ast.Ident)
+		if !ok {
+			return x
+		}
+		v, ok := info.Uses[id].(*types.Var)
+		if !ok || v.IsField() || v.Parent() == nil || v.Pkg() == nil || v.Parent() == v.Pkg().Scope() {
+			return x
+		}
+		var rhs []ast.Expr
+		for _, d := range varDefs(fn, v) {
+			if d.rhs == nil {
+				if _, isDecl := d.node.(*ast.ValueSpec); isDecl {
+					continue
+				}
+				return x
+			}
+			if identObj(info, d.rhs) == v {
+				continue
+			}
+			rhs = append(rhs, d.rhs)
+		}
+		if len(rhs) != 1 {
+			return x
+		}
+		x = rhs[0]
+	}
+	return x
+}
